@@ -181,15 +181,19 @@ func (r *runningRoutine[K, V]) remove() {
 		return
 	}
 
+	// timer is the timer this callback belongs to (assigned below, read with mtx held)
+	var timer *time.Timer
 	timerCb := func() {
 		verifhook.Point(verifhook.KeyedTimer, r.k)
 		r.k.mtx.Lock()
-		if r.k.routines[r.key] == r && r.deferRemove != nil {
+		// a canceled and re-scheduled removal is carried out by its own timer only
+		if r.k.routines[r.key] == r && r.deferRemove != nil && r.deferRemove == timer {
 			_ = r.deferRemove.Stop()
 			r.deferRemove = nil
 			removeNow()
 		}
 		r.k.mtx.Unlock()
 	}
-	r.deferRemove = time.AfterFunc(r.k.releaseDelay, timerCb)
+	timer = time.AfterFunc(r.k.releaseDelay, timerCb)
+	r.deferRemove = timer
 }
